@@ -695,6 +695,19 @@ fn edit_text(rng: &mut Rng, text: &str) -> String {
 }
 
 fn initial_text(rng: &mut Rng) -> String {
+    // now and then a long document in which every line earns a diagnostic (hundreds of them)
+    if rng.chance(1, 40) {
+        let n = 110 + rng.usize(300);
+        return (1..=n)
+            .map(|i| match i % 4 {
+                0 => format!("{} PRINT Q{}", i, i),
+                1 => format!("{} PRINT \"open {}", i, i),
+                2 => format!("{} GOTO {}", i, 100000 + i),
+                _ => format!("{} C = \"s\" + {}", i, i),
+            })
+            .collect::<Vec<_>>()
+            .join("\n");
+    }
     let mut k = Knobs::swarm(rng);
     k.input = rng.chance(1, 2);
     k.stop = rng.chance(1, 3);
